@@ -7,10 +7,6 @@ From FQE Require Import Bits GenBase.
 From FQE.gen Require Import Gen_bitstring_py Gen_bitstring_h Gen_settings.
 Local Open Scope Z_scope.
 
-Definition spec_between_mask (i j : Z) : Z :=
-  Z.of_N (range_mask (S (Nat.min (Z.to_nat i) (Z.to_nat j))) (Nat.max (Z.to_nat i) (Z.to_nat j))).
-Definition spec_above_mask (i : Z) : Z := Z.of_N (range_mask (S (Z.to_nat i)) 64).
-Definition spec_below_mask (i : Z) : Z := Z.of_N (range_mask 0 (Z.to_nat i)).
 Definition bit_mask0 (i : Z) : Z := 2 ^ i.
 
 Lemma py_between_tab : tab2d (fun i j => Z.land (py_count_bits_between_mask i j) ones64) spec_between_mask = true.
